@@ -155,8 +155,8 @@ theorem calculate_infix (op : Op) (a b : Arg N) (st : List (Arg N)) :
     simp [calculate, h1, h2, h3, h4, applyBin, runCalcFn, arith, calcDiv, calcOrd]
     generalize blank0 a = a'
     generalize blank0 b = b'
-    cases a' <;> cases b' <;> simp
-    all_goals (try (generalize toNumber _ = x; generalize toNumber _ = y; cases x <;> cases y <;> simp [liftE]))
+    cases a' <;> cases b' <;> simp [calcCompare]
+    all_goals (try (split <;> simp))
     all_goals (try (split <;> simp))
   case le =>
     have h1 : (Tok.infixOp Op.le.sym).isPrefixMinus = false := by decide
@@ -166,8 +166,8 @@ theorem calculate_infix (op : Op) (a b : Arg N) (st : List (Arg N)) :
     simp [calculate, h1, h2, h3, h4, applyBin, runCalcFn, arith, calcDiv, calcOrd]
     generalize blank0 a = a'
     generalize blank0 b = b'
-    cases a' <;> cases b' <;> simp
-    all_goals (try (generalize toNumber _ = x; generalize toNumber _ = y; cases x <;> cases y <;> simp [liftE]))
+    cases a' <;> cases b' <;> simp [calcCompare]
+    all_goals (try (split <;> simp))
     all_goals (try (split <;> simp))
   case gt =>
     have h1 : (Tok.infixOp Op.gt.sym).isPrefixMinus = false := by decide
@@ -177,8 +177,8 @@ theorem calculate_infix (op : Op) (a b : Arg N) (st : List (Arg N)) :
     simp [calculate, h1, h2, h3, h4, applyBin, runCalcFn, arith, calcDiv, calcOrd]
     generalize blank0 a = a'
     generalize blank0 b = b'
-    cases a' <;> cases b' <;> simp
-    all_goals (try (generalize toNumber _ = x; generalize toNumber _ = y; cases x <;> cases y <;> simp [liftE]))
+    cases a' <;> cases b' <;> simp [calcCompare]
+    all_goals (try (split <;> simp))
     all_goals (try (split <;> simp))
   case ge =>
     have h1 : (Tok.infixOp Op.ge.sym).isPrefixMinus = false := by decide
@@ -188,8 +188,8 @@ theorem calculate_infix (op : Op) (a b : Arg N) (st : List (Arg N)) :
     simp [calculate, h1, h2, h3, h4, applyBin, runCalcFn, arith, calcDiv, calcOrd]
     generalize blank0 a = a'
     generalize blank0 b = b'
-    cases a' <;> cases b' <;> simp
-    all_goals (try (generalize toNumber _ = x; generalize toNumber _ = y; cases x <;> cases y <;> simp [liftE]))
+    cases a' <;> cases b' <;> simp [calcCompare]
+    all_goals (try (split <;> simp))
     all_goals (try (split <;> simp))
 
 /-! ### stack discipline -/
